@@ -20,10 +20,10 @@ def run(tier, seed):
     # engine A: the linear-time list operations proved for every prime p and all coefficient lists (contracts/gfpx_a.py); a refutation is looked up in
     # the bounded native of the same operation for a concrete failing input
     tasks += [('vc.tasks', 'run_contract', ('contracts.gfpx_a', a, f'contracts.gfpx:{a}.odd7', tier)) for a in ('neg', 'add', 'sub')]
-    tasks += [('vc.tasks', 'run_contract', ('contracts.gfpx_a', a, f'contracts.gfpx:{n}', tier)) for a, n in (('lshift', 'lshift.odd7'), ('rshift', 'rshift.odd7'), ('from_list', 'truncate.odd7'), ('call', 'evaluate.odd7'))]
+    tasks += [('vc.tasks', 'run_contract', ('contracts.gfpx_a', a, f'contracts.gfpx:{n}', tier)) for a, n in (('lshift', 'lshift.odd7'), ('rshift', 'rshift.odd7'), ('from_list', 'truncate.odd7'), ('truncate', 'truncate.odd7'), ('call', 'evaluate.odd7'))]
     obs = run_tasks(tasks)
     return finish('C23', tier, seed, obs, 'other', t0,
-                  explanation='engine A (AST -> VCs -> z3) proves Polynomial._neg/_add/_sub/_lshift/_rshift/_from_list and __call__ (Horner evaluation: result is the reduced representative of the Horner value at x mod p, with an explicit ghost witness) against coefficient-wise contracts in witness form (c == x + y or x + y - p, 0 <= c < p), '
+                  explanation='engine A (AST -> VCs -> z3) proves Polynomial._neg/_add/_sub/_lshift/_rshift/_from_list/_truncate (the last against the contract of its callee _from_list) and __call__ (Horner evaluation: result is the reduced representative of the Horner value at x mod p, with an explicit ghost witness) against coefficient-wise contracts in witness form (c == x + y or x + y - p, 0 <= c < p), '
                               'the representation invariant of the result (reduced, no trailing zero, every stripped position zero in the sum) and the frame (operand lists unchanged), for all p > 1 and all lists; '
                               'everything else: bounded exhaustive enumeration of executable contracts on the real functions of mpyc/gfpx.py under CPython: every public '
                               'operator/method (+ - * // % divmod << >> ** unary -, comparisons, hash, gcd, gcdext, invert, powmod, mod, degree, indexing, '
